@@ -1707,6 +1707,8 @@ def main():
     rs2coq_api.main(os.path.join(os.path.dirname(dst), "ApiGen.v"))
     import rs2coq_cached         # part 6: CachedEnforcer -> Gen/CachedGen.v
     rs2coq_cached.main(os.path.dirname(dst))
+    import rs2coq_enf            # part 7: the sequencing methods of impl CoreApi for Enforcer -> Gen/EnforcerGen.v
+    rs2coq_enf.main(os.path.join(os.path.dirname(dst), "EnforcerGen.v"))
     import rs2coq_links          # part 8: role links + store mutators -> Gen/LinksGen.v
     rs2coq_links.main(os.path.dirname(dst))
     import rs2coq_loop           # part 10: the two enforcement loops -> Gen/EnforceGen.v
